@@ -15,7 +15,7 @@ log=/tmp/ingest-$id-$k-$$.log
 [ -f $src/patch.diff ] && [ -f $src/meta.json ] || { echo "missing $src/patch.diff or meta.json"; exit 2; }
 git -C /repo worktree add -q --detach $wt HEAD || exit 2
 trap 'git -C /repo worktree remove --force $wt >/dev/null 2>&1; rm -rf $wt $log' EXIT
-demo_cmd=$(python3 -c "import json,sys; print(json.load(open('$src/meta.json'))['demo_cmd'])" | sed "s#/tmp/mut/$id/wt#$wt#g")
+demo_cmd=$(python3 -c "import json,sys; print(json.load(open('$src/meta.json'))['demo_cmd'])" | sed "s#/tmp/mut/$id/wt#$wt#g" | sed -E "s/ {2,}\\(.*$//")
 put_demo() {
   while read -r rel; do
     [ -z "$rel" ] && continue
